@@ -13,8 +13,8 @@ that follows the productions of XML 1.0; it is tied to lxml and expat by the cor
 Hypotheses used below (defined in `TD.C18.Stream`):
 * `OpOk op` — what the caller owes for one call: element/attribute names are XML Names (the writer does not escape
   them), attribute keys are distinct (a Python dict), attribute values and `characters()` strings consist of
-  characters XML can represent (`xmlChar`), `literal()` text is plain character data, `comment()` text contains no
-  `--` and does not end in `-` (`commentOk`); `pI` and `charactersWithBr` are not covered by the theorems.
+  characters XML can represent (`xmlChar`), `literal()` text is plain character data; nothing is required of
+  `comment()` text; `pI` and `charactersWithBr` are not covered by the theorems.
 * `shape d rd ops` — the calls make exactly one document element (XML requires it).
 -/
 namespace TD.C18
@@ -85,7 +85,7 @@ theorem stream_wellformed (ops : List Op) (doc : Str)
 an element left open for `__exit__` -/
 example :
     let ops : List Op := [.start "a".toList [("k".toList, "<\"&'>\t".toList)], .start "b".toList [], .chars "x&y".toList,
-      .stop "b".toList, .comment " note - ok ".toList, .start "c".toList [("z".toList, "é".toList), ("y".toList, [])]]
+      .stop "b".toList, .comment " note -- any--thing- ".toList, .start "c".toList [("z".toList, "é".toList), ("y".toList, [])]]
     (∀ op ∈ ops, OpOk op) ∧ shape 0 false ops = true ∧ (document .xml "utf-8".toList ops).toOption.map wellFormed = some true := by
   refine ⟨?_, by decide, by decide⟩
   intro op hop
@@ -95,7 +95,7 @@ example :
   · exact ⟨by decide, by decide, by decide⟩
   · show ∀ c ∈ _, _; decide
   · trivial
-  · show commentOk _ = true; decide
+  · trivial
   · exact ⟨by decide, by decide, by decide⟩
 
 /-- **The same for `XhtmlStream`** (XML declaration, DOCTYPE, and the `html` element opened by `__enter__`):
@@ -139,14 +139,24 @@ theorem encode_illegal_ref :
     (document .xml "utf-8".toList [.start ['a'] [], .chars [Char.ofNat 0xFFFE], .stop ['a']]).toOption.map wellFormed = some false := by
   decide
 
-/-- **F20 (known finding), the negation witness.**  `comment()` only `_encode`s its text: a double hyphen (or a
-trailing hyphen) goes out unchanged and the document is not well-formed ([15] Comment), although every other call
-is as `stream_wellformed` requires.  (Control characters, in contrast, are harmless inside a comment.) -/
-theorem comment_double_hyphen_illformed :
-    commentOk " a -- b ".toList = false ∧
-    (document .xml "utf-8".toList [.start ['a'] [], .comment " a -- b ".toList, .stop ['a']]).toOption.map wellFormed = some false ∧
-    (document .xml "utf-8".toList [.start ['a'] [], .comment "DEPT-".toList, .stop ['a']]).toOption.map wellFormed = some false ∧
-    (document .xml "utf-8".toList [.start ['a'] [], .comment [Char.ofNat 1, '-', 'x'], .stop ['a']]).toOption.map wellFormed = some true := by
+/-- **Comments (former finding F20, repaired in `XmlStream.comment`).**  Whatever string is passed to `comment()` —
+double hyphens, a trailing hyphen, markup, even characters XML cannot represent (they become literal `&#NNN;` text,
+harmless inside a comment) — the text the writer puts between `<!--` and `-->` is a legal comment body ([15]: made of
+XML characters, no `--`, no `-` before the closing `-->`), and the recogniser reads the whole comment from character
+data back to character data.  No hypothesis on the string. -/
+theorem comment_wellformed (s : Str) :
+    (cOk 0 (commentText s) = true ∧ ∀ x ∈ commentText s, xmlChar x = true) ∧
+    ∀ (stk : List Str) (rd : Bool) (evs : List Event), ∃ evs',
+      runM ⟨.content, stk, rd, evs⟩ ("<!--".toList ++ commentText s ++ "-->".toList) = some ⟨.content, stk, rd, evs'⟩ :=
+  ⟨commentText_ok s, fun stk rd evs => run_comment s stk rd evs⟩
+
+/-- the strings of the former finding are now written as well-formed documents -/
+example :
+    (document .xml "utf-8".toList [.start ['a'] [], .comment " a -- b ".toList, .stop ['a']]).toOption.map wellFormed = some true ∧
+    (document .xml "utf-8".toList [.start ['a'] [], .comment "DEPT-".toList, .stop ['a']]).toOption.map wellFormed = some true ∧
+    (document .xml "utf-8".toList [.start ['a'] [], .comment "-----".toList, .stop ['a']]).toOption.map wellFormed = some true ∧
+    commentText " a -- b ".toList = " a - - b ".toList ∧ commentText "-----".toList = "- - - - - ".toList ∧
+    commentText "x-".toList = "x- ".toList := by
   decide
 
 /-- **RLE, values.**  The run-length items built by `create_rle` (integer branch of `RLEItem.add`) yield, by the
